@@ -570,6 +570,20 @@ func C19(c *Case) *Result {
 			if r.RC == 0 {
 				return res.fail("cli-overwrite-status", "decompression onto an existing file without force exits with status 0")
 			}
+			// decompression with the output naming the input itself, forced: directly, through
+			// another spelling of the path, and through a hard link - the stream must survive
+			knz := filepath.Join(root, src+".knz")
+			orig, _ := os.ReadFile(knz)
+			hard := filepath.Join(root, "hard.knz")
+			os.Link(knz, hard)
+			for _, out := range []string{src + ".knz", filepath.Join(root, src+".knz"), "hard.knz"} {
+				r = exec1([]string{"-d", "-i", src + ".knz", "-o", out, "-f"}, nil, nil)
+				cur, err := os.ReadFile(knz)
+				if err != nil || !bytes.Equal(cur, orig) {
+					return res.fail("cli-wrote-own-input", "decompression with -o %s naming its own input and -f: the input stream is gone or changed afterwards (exit status %d)", out, r.RC)
+				}
+				res.Probes["safety.decompress.onto.itself"]++
+			}
 		}
 		res.Probes["safety.cases"]++
 		res.NonTriv = true
